@@ -1408,6 +1408,51 @@ package ring
 //@ afunc AutomorphismNTTIndex
 //@   trusted opaque at the abstract level: the index table of a Galois element, or an error
 
+// ---- ternary sampling, density 1/2 fast path (property C17) ----
+//@ func Ring.ModuliChain
+//@   property C17
+//@   trusted accessor loop: assumed to list the moduli of the sub-rings in order, in fresh storage
+//@   assigns
+//@   ensures len(result) == len(r.SubRings) && fresh(result)
+//@   ensures forall(j, 0, len(r.SubRings), result[j] == r.SubRings[j].Modulus)
+
+//@ func TernarySampler.kysampling
+//@   property C17
+//@   trusted Knuth-Yao walk (probability matrix, recursion on rejection) not verified: assumed to return a coefficient bit, a sign bit and the same buffer, possibly refilled from the generator
+//@   assigns randomBytes
+//@   gassigns draws
+//@   ensures result0 <= 1 && result1 <= 1 && same(result2, randomBytes) && len(result2) == len(randomBytes)
+
+// every value handed to the store callback is the table entry lut[j][index] of ONE index in {0,1,2}
+// per coefficient, with the modulus of row j (the sampled integer is the same in every RNS row);
+// in the density-1/2 path bit i of the first N/8 generator bytes decides zero / non-zero and bit i
+// of the NEXT N/8 generator bytes decides the sign
+//@ func TernarySampler.sampleProba
+//@   property C17
+//@   let rg = ts.baseRing
+//@   let N = rg.SubRings[0].N
+//@   let d0 = old(draws)
+//@   let cb = (sampling.stream(d0 + (i >> 3)) >> (i & 7)) & 1
+//@   let sb = (sampling.stream(d0 + (N >> 3) + (i >> 3)) >> (i & 7)) & 1
+//@   requires ts.invDensity != 0
+//@   requires 0 <= rg.level && rg.level < len(rg.SubRings) && rg.level < len(pol.Coeffs) && rg.level < len(ts.matrixValues)
+//@   requires 0 < N && N <= 1<<20 && N % 8 == 0
+//@   requires forall(j, 0, rg.level+1, len(pol.Coeffs[j]) >= N && len(ts.matrixValues[j]) >= 3)
+//@   fnparam f requires c == rg.SubRings[j].Modulus && index <= 2 && b == ts.matrixValues[j][index]
+//@   fnparam f requires implies(ts.invDensity == 0.5, coeff == cb && sign == sb)
+//@   loop 0 invariant len(moduli) == rg.level+1 && forall(k, 0, rg.level+1, moduli[k] == rg.SubRings[k].Modulus)
+//@   loop 0 invariant 0 <= i && i <= N && len(randomBytesCoeffs) == N >> 3 && len(randomBytesSign) == N >> 3
+//@   loop 0 invariant forall(k, 0, N >> 3, randomBytesCoeffs[k] == sampling.stream(d0 + k))
+//@   loop 0 invariant forall(k, 0, N >> 3, randomBytesSign[k] == sampling.stream(d0 + (N >> 3) + k))
+//@   loop 1 invariant len(moduli) == rg.level+1 && forall(k, 0, rg.level+1, moduli[k] == rg.SubRings[k].Modulus)
+//@   loop 1 invariant 0 <= j && j <= rg.level+1 && index <= 2 && coeff == cb && sign == sb
+//@   loop 1 invariant forall(k, 0, N >> 3, randomBytesCoeffs[k] == sampling.stream(d0 + k))
+//@   loop 1 invariant forall(k, 0, N >> 3, randomBytesSign[k] == sampling.stream(d0 + (N >> 3) + k))
+//@   loop 2 invariant len(moduli) == rg.level+1 && forall(k, 0, rg.level+1, moduli[k] == rg.SubRings[k].Modulus)
+//@   loop 2 invariant 0 <= i && i <= N && len(randomBytes) == N
+//@   loop 3 invariant len(moduli) == rg.level+1 && forall(k, 0, rg.level+1, moduli[k] == rg.SubRings[k].Modulus)
+//@   loop 3 invariant 0 <= j && j <= rg.level+1 && index <= 2
+
 // ---- read / read-and-add share one body: every store into the polynomial goes through the callback (C17) ----
 //@ storesvia UniformSampler.read pol f
 //@   property C17
